@@ -9,7 +9,9 @@ descendant has exited before the queue and the record directory are inspected.
 
 Queue side A: $QMAILQUEUE = qq-rec in `tee` mode in front of the REAL qmail-queue and a real
 queue: committed = a new queue/todo/<n>.  Queue side B: qq-rec plans (every exit status 0..255,
-exit 82 + text on descriptor 6, death by signal, stops reading early); with plan exit=0 the
+exit 82 + text on descriptor 6, death by signal, stops reading early); resource trouble: the real
+qmail-queue failing at its k-th file operation (nqshim fault plan) and RLIMIT_NOFILE so small
+that pipe()/open() fail in the daemon.  With plan exit=0 the
 stand-in is a *virtual conforming queue*: committed = the recorded envelope was closed by the
 extra NUL (qmail-queue(8): "if it sees end-of-file before the extra 0 byte it aborts").
 Commits and acknowledgements are matched through the queue program's pid (`qp` in the reply,
@@ -983,13 +985,13 @@ def work_list(tier):
     q = tier == "quick"
     specs = []
     for dn in ("smtpd", "qmtpd", "qmqpd"):
-        ngen = core.scaled(2200 if q else 40000)
-        nmut = core.scaled(500 if q else 10000)
-        nrcut = core.scaled(400 if q else 6000)
+        ngen = core.scaled(3000 if q else 40000)
+        nmut = core.scaled(600 if q else 10000)
+        nrcut = core.scaled(500 if q else 6000)
         specs += [("gen", dn, i) for i in range(ngen)]
         specs += [("mut", dn, i) for i in range(nmut)]
         specs += [("rcut", dn, i) for i in range(nrcut)]
-        for j in range(2 if q else 20):
+        for j in range(3 if q else 20):
             n = len(gen.wire_of(short_session(dn, j)))
             specs += [("cut", dn, j, k) for k in range(0, n + 1)]
         specs += [("exit", dn, n, r) for r in range(1 if q else 4) for n in range(256)]
@@ -1037,6 +1039,9 @@ def note_evidence(res, case, o):
         res.counters.inc("cut_points_exercised_" + dn)
         if case["cls"] == "cut-sweep":
             res.counters.inc("cut_points_exhaustive_" + dn)
+            d = res.counters.setdefault("cut_sweep_session_bytes", {})
+            k = "%s/%d" % (dn, len(gen.wire_of(case)))
+            d[k] = d.get(k, 0) + 1
     if case.get("nofile"):
         d = res.counters.setdefault("descriptor_limits_exercised", {})
         d[str(case["nofile"])] = d.get(str(case["nofile"]), 0) + 1
